@@ -500,3 +500,57 @@ def s3_list(seed, gen, s2: S2):
     out.append(("perm(2,0,1)", G.qubit_permutation((2, 0, 1))))
     out.append(("H(x)H(x)H", E.kron(H, H, H)))
     return out
+
+
+# ------------------------------------------------------------------------------------------------
+# basis-state propagation for circuits of single-qubit gates and (multi-)controlled single-qubit gates
+
+
+def _apply_controlled_1q(T, n, controls, target, g):
+    """In-place: apply the 2x2 matrix g on axis `target` of T in the sub-block where all `controls` axes are 1."""
+    i0 = [slice(None)] * (n + 1)
+    for c in controls:
+        i0[c] = 1
+    i1 = list(i0)
+    i0[target] = 0
+    i1[target] = 1
+    i0, i1 = tuple(i0), tuple(i1)
+    a, b = T[i0], T[i1]
+    g00, g01, g10, g11 = g[0, 0], g[0, 1], g[1, 0], g[1, 1]
+    if g01 == 0 and g10 == 0:
+        if g00 != 1:
+            a *= g00
+        if g11 != 1:
+            b *= g11
+    elif g00 == 0 and g11 == 0 and g01 == 1 and g10 == 1:
+        tmp = a.copy()
+        a[...] = b
+        b[...] = tmp
+    else:
+        na = g00 * a + g01 * b
+        b[...] = g10 * a + g11 * b
+        a[...] = na
+
+
+def propagate_defect(n, gates, inverse_expected, max_cols=1024):
+    """gates / inverse_expected: lists of (controls, target, 2x2 matrix) acting on wires 0..n-1 (big-endian).
+    Propagates EVERY computational basis state through `gates` followed by `inverse_expected` and returns
+    max |result - f * identity| with the best global phase f: 0 iff gates == expected up to global phase."""
+    D = 2 ** n
+    worst = 0.0
+    f = None
+    for lo in range(0, D, max_cols):
+        hi = min(D, lo + max_cols)
+        T = np.zeros((D, hi - lo), dtype=C)
+        T[np.arange(lo, hi), np.arange(hi - lo)] = 1
+        T = T.reshape((2,) * n + (hi - lo,))
+        for controls, target, g in list(gates) + list(inverse_expected):
+            _apply_controlled_1q(T, n, controls, target, np.asarray(g, dtype=C))
+        M = T.reshape(D, hi - lo)
+        diag = M[np.arange(lo, hi), np.arange(hi - lo)]
+        if f is None:
+            s = diag.sum()
+            f = s / abs(s) if abs(s) > 1e-9 else 1.0
+        M[np.arange(lo, hi), np.arange(hi - lo)] = diag - f
+        worst = max(worst, float(np.max(np.abs(M))))
+    return worst
